@@ -15,9 +15,16 @@ Definition preserves (rw : expr -> expr) (rho : env) (e : expr) : Prop := meanin
 Definition changes (rw : expr -> expr) (rho : env) (e : expr) : Prop :=
   is_allpar e = true /\ wf e = true /\ meaning rho (rw e) <> meaning rho e.
 
+(** the printed text parses back to the tree that was built (decidable; implied by [paren_safe], and true of every tree
+    printed with the minimal parentheses Python's precedences need) *)
+Definition parses_as_built (t : expr) : Prop := norm t = allpar t.
+Lemma paren_safe_built t : paren_safe t = true -> parses_as_built t.
+Proof. apply norm_paren_safe. Qed.
+Lemma meaning_built rho t : parses_as_built t -> meaning rho t = eval rho t.
+Proof. intros H. unfold meaning. rewrite H. apply eval_allpar. Qed.
 Lemma lift_tree_level (rw : expr -> expr) rho e :
-  paren_safe e = true -> paren_safe (rw e) = true -> eval rho (rw e) = eval rho e -> preserves rw rho e.
-Proof. intros S S' H. unfold preserves. rewrite !meaning_safe by assumption. exact H. Qed.
+  parses_as_built e -> parses_as_built (rw e) -> eval rho (rw e) = eval rho e -> preserves rw rho e.
+Proof. intros S S' H. unfold preserves. rewrite !meaning_built by assumption. exact H. Qed.
 
 (** * witnesses *)
 Definition s (x : string) : str := lit x.
@@ -59,7 +66,7 @@ Definition w_hasattr : expr := ECall BHasattr [EName 0; call_lit].              
 (** * combine-startswith-endswith / combine-isinstance-issubclass *)
 Definition C08_combine_statement (cfg : combine_cfg) : Prop :=
   (* the law, under the guard *)
-  (forall k rho e, paren_safe e = true -> paren_safe (rw_combine cfg k e) = true ->
+  (forall k rho e, parses_as_built e -> parses_as_built (rw_combine cfg k e) -> in_model (meaning rho e) = true ->
                    combine_guard cfg k rho e = true -> preserves (rw_combine cfg k) rho e)
   (* outside the guard: a name bound to a tuple; a later argument that raises *)
   /\ (exists rho e, changes (rw_combine cfg KStartsEnds) rho e /\ paren_safe (rw_combine cfg KStartsEnds e) = true)
@@ -74,7 +81,7 @@ Definition C08_combine_statement (cfg : combine_cfg) : Prop :=
 Lemma C08_combine_all cfg : C08_combine_statement cfg.
 Proof.
   split; [|split; [|split; [|split]]].
-  - intros k rho e S S' G. apply lift_tree_level; try assumption. apply combine_preserves, G.
+  - intros k rho e S S' _ G. apply lift_tree_level; try assumption. apply combine_preserves, G.
   - exists w_tuple_env, w_tuple. destruct cfg as [[] []]; vm_compute; (split; [split; [reflexivity|split; [reflexivity|discriminate]]|reflexivity]).
   - destruct cfg as [[] []]; vm_compute; (split; [reflexivity|split; [reflexivity|discriminate]]).
   - destruct cfg as [[] []]; cbn [cc_inner_or]; try exact I; vm_compute; (split; [split; [reflexivity|split; [reflexivity|discriminate]]|reflexivity]).
@@ -106,7 +113,7 @@ Qed.
 Definition C08_invert_statement (cfg : invert_cfg) : Prop :=
   (* the law, under the guard: single comparison, operator in the table with its true negation, operands totally
      ordered or operator not an ordering; `not x is True/False` only for bool x *)
-  (forall rho e, paren_safe e = true -> paren_safe (invert_file cfg e) = true ->
+  (forall rho e, parses_as_built e -> parses_as_built (invert_file cfg e) -> in_model (meaning rho e) = true ->
                  invert_guard cfg rho e = true -> preserves (invert_file cfg) rho e)
   (* outside the guard, whatever the table says about < : partial orders, NaN; non-bool `is True` *)
   /\ (assoc_op Lt (iv_table cfg) = Some GtE -> changes (invert_file cfg) [] w_sets)
@@ -139,7 +146,7 @@ Qed.
 Lemma C08_invert_all cfg : C08_invert_statement cfg.
 Proof.
   split; [|split; [|split; [|split]]].
-  - intros rho e S S' G. apply lift_tree_level; try assumption. apply invert_file_preserves, G.
+  - intros rho e S S' _ G. apply lift_tree_level; try assumption. apply invert_file_preserves, G.
   - intros A. split; [reflexivity|]. split; [reflexivity|]. unfold meaning.
     rewrite (invert_file_single cfg w_sets (ESet [ci 1]) Lt (ESet [ci 2]) GtE) by (reflexivity || discriminate || exact A).
     vm_compute. discriminate.
@@ -157,26 +164,80 @@ Qed.
 (** * use-generator *)
 Definition C08_generator_statement (cfg : generator_cfg) : Prop :=
   (* the law: sum/min/max always; any/all when every element of the list form evaluates; no argument dropped *)
-  (forall rho e, paren_safe e = true -> paren_safe (generator_file cfg e) = true ->
+  (forall rho e, parses_as_built e -> parses_as_built (generator_file cfg e) -> in_model (meaning rho e) = true ->
                  generator_guard cfg rho e = true -> preserves (generator_file cfg) rho e)
   /\ changes (generator_file cfg) [] w_short
   /\ (if ug_single_arg cfg then generator_file cfg w_dropped = w_dropped else changes (generator_file cfg) [] w_dropped).
 Lemma C08_generator_all cfg : C08_generator_statement cfg.
 Proof.
   split; [|split].
-  - intros rho e S S' G. apply lift_tree_level; try assumption. apply generator_file_preserves, G.
+  - intros rho e S S' _ G. apply lift_tree_level; try assumption. apply generator_file_preserves, G.
   - destruct cfg as [[] [] []]; vm_compute; (split; [reflexivity|split; [reflexivity|discriminate]]).
   - destruct cfg as [[] [] []]; cbn [ug_single_arg]; vm_compute; try reflexivity; (split; [reflexivity|split; [reflexivity|discriminate]]).
 Qed.
 
 (** * use-set-literal: no guard *)
 Lemma C08_set_literal_all rho e :
-  paren_safe e = true -> paren_safe (rw_set_literal e) = true -> preserves rw_set_literal rho e.
-Proof. intros S S'. apply lift_tree_level; try assumption. apply set_literal_preserves. Qed.
+  parses_as_built e -> parses_as_built (rw_set_literal e) -> in_model (meaning rho e) = true -> preserves rw_set_literal rho e.
+Proof. intros S S' _. apply lift_tree_level; try assumption. apply set_literal_preserves. Qed.
 
 (** * fix-hasattr-call *)
-Lemma C08_hasattr_all rho e :
-  paren_safe e = true -> paren_safe (rw_hasattr e) = true -> hasattr_guard rho e = true -> preserves rw_hasattr rho e.
-Proof. intros S S' G. apply lift_tree_level; try assumption. apply hasattr_preserves, G. Qed.
-Lemma C08_hasattr_refuted_w : changes rw_hasattr w_hasattr_env w_hasattr.
+(** hasattr(v0, "x", "__call__"): TypeError (three arguments) -> callable(v0) = False, in the pinned form *)
+Definition w_hasattr_arity : expr := ECall BHasattr [EName 0; cs "x"; call_lit].
+Definition C08_hasattr_statement (cfg : hasattr_cfg) : Prop :=
+  (forall rho e, parses_as_built e -> parses_as_built (rw_hasattr cfg e) -> in_model (meaning rho e) = true ->
+                 hasattr_guard cfg rho e = true -> preserves (rw_hasattr cfg) rho e)
+  /\ changes (rw_hasattr cfg) w_hasattr_env w_hasattr
+  /\ (if ha_two_args cfg then rw_hasattr cfg w_hasattr_arity = w_hasattr_arity
+      else changes (rw_hasattr cfg) w_hasattr_env w_hasattr_arity).
+Lemma C08_hasattr_all cfg : C08_hasattr_statement cfg.
+Proof.
+  split; [|split].
+  - intros rho e S S' _ G. apply lift_tree_level; try assumption. apply hasattr_preserves, G.
+  - destruct cfg as [[]]; vm_compute; (split; [reflexivity|split; [reflexivity|discriminate]]).
+  - destruct cfg as [[]]; vm_compute; [reflexivity|split; [reflexivity|split; [reflexivity|discriminate]]].
+Qed.
+
+(** * fix-empty-sequence-comparison *)
+From CM Require Import Proofs.TdFacts.
+Definition observed (in_test : bool) (rho : env) (t : expr) : result := obs_at in_test (meaning rho t).
+(** v1 == []  with v1 = () : False -> True;   v1 != [] with v1 = 0 : True -> False *)
+Definition w_es_tuple_env : env := [(1%N, VTuple [])].
+Definition w_es_tuple : expr := ECmp true (EName 1) [(Eq, EList [])].
+Definition w_es_int_env : env := [(1%N, VInt 0)].
+Definition w_es_int : expr := ECmp true (EName 1) [(NotEq, EList [])].
+(** 2 // (v1 == []) with v1 = []: the pinned form printed `2 // not v1` *)
+Definition w_es_parens : expr := EFloorDiv (ci 2) (ECmp true (EName 1) [(Eq, EList [])]).
+Definition w_es_parens_and : expr := ECmp true (ENot true (ECmp true (EName 1) [(Eq, EList [])])) [(Eq, EConst (CBool false))].
+
+Definition C08_empty_seq_statement (cfg : empty_seq_cfg) : Prop :=
+  (* the law: every rewritten comparison compares a value of the display's own type (or one whose evaluation raises) *)
+  (forall in_test rho e, parses_as_built e -> parses_as_built (empty_seq_file cfg in_test e) -> in_model (meaning rho e) = true ->
+                         empty_seq_guard cfg in_test rho e = true ->
+                         observed in_test rho (empty_seq_file cfg in_test e) = observed in_test rho e)
+  (* outside: a tuple compared with [], an int compared with [] *)
+  /\ changes (empty_seq_file cfg false) w_es_tuple_env w_es_tuple
+  /\ changes (empty_seq_file cfg false) w_es_int_env w_es_int
+  /\ (is_allpar w_es_int = true /\ observed true w_es_int_env (empty_seq_file cfg true w_es_int) <> observed true w_es_int_env w_es_int)
+  (* parentheses of the replaced comparison *)
+  /\ (if es_parens cfg then wf (empty_seq_file cfg false w_es_parens) = true
+      else wf w_es_parens = true /\ wf (empty_seq_file cfg false w_es_parens) = false).
+Lemma C08_empty_seq_all cfg : C08_empty_seq_statement cfg.
+Proof.
+  split; [|split; [|split; [|split]]].
+  - intros in_test rho e S S' _ G. unfold observed. rewrite !meaning_built by assumption.
+    apply empty_seq_file_preserves, G.
+  - destruct cfg as [[]]; vm_compute; (split; [reflexivity|split; [reflexivity|discriminate]]).
+  - destruct cfg as [[]]; vm_compute; (split; [reflexivity|split; [reflexivity|discriminate]]).
+  - destruct cfg as [[]]; vm_compute; (split; [reflexivity|discriminate]).
+  - destruct cfg as [[]]; vm_compute; try reflexivity. split; reflexivity.
+Qed.
+
+(** * literal-or-new-object-identity *)
+(** True is 1 : False -> True (True == 1) *)
+Definition w_id_bool : expr := ECmp true (EConst (CBool true)) [(Is, ci 1)].
+Lemma C08_identity_all rho e :
+  parses_as_built e -> parses_as_built (rw_identity e) -> in_model (meaning rho e) = true -> identity_guard rho e = true -> preserves rw_identity rho e.
+Proof. intros S S' _ G. apply lift_tree_level; try assumption. apply identity_preserves, G. Qed.
+Lemma C08_identity_refuted_w : changes rw_identity [] w_id_bool.
 Proof. vm_compute. split; [reflexivity|split; [reflexivity|discriminate]]. Qed.
